@@ -30,7 +30,7 @@ COMPONENTS = {
     "real": ["eolib.data.EoWriter (sanitisation on)", "eolib.data.EoReader (chunked mode)", "codecs"],
     "stub_or_harness": ["sender/receiver scripts (version-skewed read plans)", "expected-value computation"],
 }
-PROBES = ["chunked_section_of_structs_only", "unchunked_overread_inside_chunk", "mode_reassigned_mid_stream", "generated_serializer_session", "generated_deserializer_session", "unsanitised_y_in_header", "overread_spanning_integer", "empty_chunk", "string_only_y_diaeresis", "last_chunk_overread",
+PROBES = ["break_inside_switch_case", "second_receiver_from_slice_zero", "chunked_section_of_structs_only", "unchunked_overread_inside_chunk", "mode_reassigned_mid_stream", "generated_serializer_session", "generated_deserializer_session", "unsanitised_y_in_header", "overread_spanning_integer", "empty_chunk", "string_only_y_diaeresis", "last_chunk_overread",
           "underread_then_surplus", "first_byte_y_diaeresis", "last_byte_y_diaeresis", "one_char_y_diaeresis"]
 FAULT_KINDS = ["under_read", "over_read"]
 
@@ -87,6 +87,10 @@ def generate(streams, tier):
                 surplus.append([op])
         chunks.append({"fields": fields, "prefix": prefix, "surplus": surplus})
     plan = {"chunks": chunks, "header": header}
+    if rng.random() < 0.15:
+        # a second receiver starts over from the beginning of the chunked part (slice(0) of the first one) after the
+        # first one has consumed that many chunks, and reads everything
+        plan["reslice_after"] = rng.randrange(0, len(chunks) + 1)
     if rng.random() < 0.05:
         # the sender is a GENERATED packet serializer (chunked section, nested struct with or without its own
         # chunked section, strings after the nested struct); the receiver is still a hand-driven EoReader
@@ -96,7 +100,7 @@ def generate(streams, tier):
             "s1": pool.get(vr), "a": pool.get(vr, min_len=3, max_len=3) if True else "", "b": gen_int_in_range(vr, "short"),
             "s2": pool.get(vr), "k": gen_int_in_range(vr, "three"), "s3": pool.get(vr, allow_tilde=False),
             "kind": rng.choice([1, 1, 2]), "note": pool.get(vr),
-            "skip": [rng.random() < 0.3 for _ in range(6)], "extra": [rng.random() < 0.3 for _ in range(6)],
+            "skip": [rng.random() < 0.3 for _ in range(7)], "extra": [rng.random() < 0.3 for _ in range(7)],
         }
         plan["generated"]["a"] = (plan["generated"]["a"] + "abc")[:3]
         if rng.random() < 0.3:
@@ -161,6 +165,13 @@ def c06_tree():
         <field name="flag" type="char"/>
         <field name="tail" type="string"/>
     </struct>
+    <enum name="Kind" type="char"><value name="One">1</value><value name="Two">2</value></enum>
+    <struct name="Widths">
+        <field name="k1" type="Kind"/>
+        <field name="k2" type="Kind:short"/>
+        <field name="k3" type="Kind:three"/>
+        <field name="k4" type="Kind"/>
+    </struct>
     <struct name="Member">
         <field name="rank" type="short"/>
         <field name="name" type="string"/>
@@ -187,6 +198,8 @@ def c06_tree():
             <switch field="kind">
                 <case value="1">
                     <field name="note" type="string"/>
+                    <break/>
+                    <field name="extra" type="char"/>
                 </case>
             </switch>
             <break/>
@@ -250,7 +263,7 @@ def run_generated(plan, env, res, tr, fail):
     inner_cls = getattr(net, g["variant"])
     pkt_cls = srv.TalkTellServerPacket if g["variant"] == "InnerChunked" else srv.TalkReportServerPacket
     kind = g.get("kind", 2)
-    case = getattr(pkt_cls, "KindData1")(note=g.get("note", "")) if kind == 1 else None
+    case = getattr(pkt_cls, "KindData1")(note=g.get("note", ""), extra=g["k"] % 253) if kind == 1 else None
     import inspect
     extra = {"mark": "\u00ffzz"} if "mark" in inspect.signature(inner_cls.__init__).parameters else {}
     pkt = pkt_cls(h=g["h"], s1=g["s1"], inner=inner_cls(a=g["a"], b=g["b"], **extra), s2=g["s2"], kind=kind, kind_data=case,
@@ -262,11 +275,14 @@ def run_generated(plan, env, res, tr, fail):
     res.count("probe.generated_serializer_session")
     hb = g["h"].encode("cp1252", "replace")
     body = out[len(hb):]
-    kchunk = [("char", kind)] + ([("s", g.get("note", ""))] if kind == 1 else [])
+    # the case of kind 1 has a break of its own: its data spans two chunks
+    kchunks = [[("char", kind), ("s", g.get("note", ""))], [("char", g["k"] % 253)]] if kind == 1 else [[("char", kind)]]
+    if kind == 1:
+        res.count("probe.break_inside_switch_case")
     if g["variant"] == "InnerChunked":
-        chunks = [[("s", g["s1"])], [("s", g["a"])], [("short", g["b"])], [("f3", "\u00ffes"), ("s", g["s2"])], kchunk, [("three", g["k"]), ("e", g["s3"])]]
+        chunks = [[("s", g["s1"])], [("s", g["a"])], [("short", g["b"])], [("f3", "\u00ffes"), ("s", g["s2"])], *kchunks, [("three", g["k"]), ("e", g["s3"])]]
     else:
-        chunks = [[("s", g["s1"])], [("f3", g["a"]), ("short", g["b"]), ("f3", "\u00ffzz"), ("f2", "z\u00ff")], [("f3", "\u00ffes"), ("s", g["s2"])], kchunk, [("three", g["k"]), ("e", g["s3"])]]
+        chunks = [[("s", g["s1"])], [("f3", g["a"]), ("short", g["b"]), ("f3", "\u00ffzz"), ("f2", "z\u00ff")], [("f3", "\u00ffes"), ("s", g["s2"])], *kchunks, [("three", g["k"]), ("e", g["s3"])]]
     if body.count(0xFF) != len(chunks) - 1:
         return fail("break-in-payload", "generated-serializer",
                     f"{pkt_cls.__name__} wrote {body.count(0xFF)} break bytes after the header for {len(chunks)} chunks: "
@@ -480,6 +496,33 @@ def execute(plan, env):
         r = r.slice()
     r.chunked_reading_mode = True
     classes = []
+
+    def reread_from_start(first):
+        r2 = first.slice(0)
+        r2.chunked_reading_mode = True
+        res.count("probe.second_receiver_from_slice_zero")
+        for cj, ch2 in enumerate(chunks):
+            for f in ch2["fields"]:
+                k = f[0]
+                if k in INT_KINDS:
+                    got, want = getattr(r2, "get_" + k)(), f[1]
+                elif k == "fixed":
+                    got, want = r2.get_fixed_string(len(f[1])), image(f[1])
+                elif k == "fixed_encoded":
+                    got, want = r2.get_fixed_encoded_string(len(f[1])), image(f[1])
+                elif k == "tail":
+                    got, want = r2.get_string(), image(f[1])
+                else:
+                    got, want = r2.get_encoded_string(), image(f[1])
+                if got != want:
+                    return f"a second receiver over slice(0) read chunk {cj} field {f!r} as {got!r}, expected {want!r}"
+            r2.next_chunk()
+        return None
+
+    if plan.get("reslice_after") == 0:
+        bad = reread_from_start(r)
+        if bad:
+            return fail("field-value", "second-receiver", bad, step)
     for ci, ch in enumerate(chunks):
         fields, prefix = ch["fields"], min(ch["prefix"], len(ch["fields"]))
         for f in fields[:prefix]:
@@ -547,6 +590,10 @@ def execute(plan, env):
         classes.append(cls)
         r.next_chunk()
         tr.ev(ci, "next_chunk", r.position)
+        if plan.get("reslice_after") == ci + 1:
+            bad = reread_from_start(r)
+            if bad:
+                return fail("field-value", "second-receiver", bad + f"; the first receiver had consumed chunks as {classes}", step)
     if r.remaining != 0:
         return fail("not-at-end", "end", f"remaining={r.remaining} after the last chunk", step)
     if any(c not in ("exact",) for c in classes):
